@@ -3,18 +3,30 @@ From Coq Require Import List String ZArith Bool Ascii.
 From C19 Require Import Model Spec Lex LexProofs Proofs Session SessionSpec SessionProofs.
 Import ListNotations.
 
-(* (1) LOAD FORMS.  For EVERY value of the modelled universe inside the guard -- numbers, strings, characters, keywords,
-   self-bound type symbols, proper and dotted lists, vectors, arrays, hash tables, lambdas, nested without bound --
-   evaluating its load form rebuilds exactly the value (structural equality, which is finer than slip's Equal: it also
-   sees the adjustable flag; lambdas are compared as code trees because Lambda.Equal is pointer identity). *)
-Theorem C19_load_form_reloads : forall v, loadable v = true -> reload v = Ok v.
+(* (1) LOAD FORMS.  For EVERY value of the modelled universe inside the guard -- numbers, strings, characters, symbols,
+   proper and dotted lists, vectors (empty or not, adjustable or not, with or without a fill pointer), arrays (zero
+   dimensions included), hash tables (keys and values of every kind, values nested), lambdas, flavor instances (whose
+   instance variables hold any such value), nested without bound -- evaluating its load form rebuilds exactly the value
+   (structural equality, which is finer than slip's Equal: it also sees the adjustable flag and the fill pointer;
+   lambdas are compared as code trees because Lambda.Equal is pointer identity), in every environment that has the
+   constants of the language and knows the flavors of the instances inside the value. *)
+Theorem C19_load_form_evaluates_back : forall v, loadable v = true -> forall e, env_ok e -> insts_in e v = true ->
+  bind (load_form v) (eval e) = Ok v.
+Proof. exact load_form_reloads. Qed.
+Print Assumptions C19_load_form_evaluates_back.
+(* ... in particular a value without instances, in the global environment *)
+Theorem C19_load_form_reloads : forall v, loadable v = true -> no_inst v = true -> reload v = Ok v.
 Proof. exact reload_loadable. Qed.
 Print Assumptions C19_load_form_reloads.
 
-(* the guard is not vacuous: one value nesting every kind *)
-Theorem C19_load_form_guard_nonvacuous : loadable ex_rich = true /\ reload ex_rich = Ok ex_rich.
+(* the guard is not vacuous: one value nesting every kind; an instance nesting lists, a symbol, a table, instances *)
+Theorem C19_load_form_guard_nonvacuous : loadable ex_rich = true /\ no_inst ex_rich = true /\ reload ex_rich = Ok ex_rich.
 Proof. exact ex_rich_loadable. Qed.
 Print Assumptions C19_load_form_guard_nonvacuous.
+Theorem C19_instance_load_form_nonvacuous : loadable ex_inst_value = true /\ insts_in ex_env ex_inst_value = true
+  /\ bind (load_form ex_inst_value) (eval ex_env) = Ok ex_inst_value.
+Proof. exact ex_inst_value_ok. Qed.
+Print Assumptions C19_instance_load_form_nonvacuous.
 
 (* (2) MARGINS.  The pretty printer may only change white space.  Whatever white space (line breaks, indentation)
    a layout puts between the tokens of a form -- non-empty where two tokens would fuse -- the text lexes to the same
@@ -94,28 +106,9 @@ Proof. exact ex_flavor_history_ok. Qed.
 Print Assumptions C19_flavor_session_nonvacuous.
 
 (* (4) Outside the guards the faithful model violates the specification: the known findings. *)
-Theorem C19_adjustable_lost_refuted :
-  loadable (Vec [Fix 1; Fix 2] T false) = false /\ reload (Vec [Fix 1; Fix 2] T false) = Ok (Vec [Fix 1; Fix 2] T true).
-Proof. exact adjustable_lost_refuted. Qed.
-Print Assumptions C19_adjustable_lost_refuted.
-Theorem C19_empty_vector_refuted : loadable (Vec [] T true) = false /\ reload (Vec [] T true) = Err EType.
-Proof. exact empty_vector_refuted. Qed.
-Print Assumptions C19_empty_vector_refuted.
-Theorem C19_zero_dimension_refuted :
-  reload (Arr [2; 0] [] T true) = Err EType /\ reload (Arr [] [Fix 7] T true) = Err EType
-  /\ loadable (Arr [2; 0] [] T true) = false /\ loadable (Arr [] [Fix 7] T true) = false.
-Proof. exact zero_dimension_refuted. Qed.
-Print Assumptions C19_zero_dimension_refuted.
-Theorem C19_hash_keys_dropped_refuted :
-  loadable (Hash [(Atom "character" "#\c", Fix 1)]) = false /\ reload (Hash [(Atom "character" "#\c", Fix 1)]) = Ok (Hash [])
-  /\ reload (Hash [(L [Fix 1; Fix 2], Fix 1)]) = Ok (Hash []).
-Proof. exact hash_keys_dropped_refuted. Qed.
-Print Assumptions C19_hash_keys_dropped_refuted.
-Theorem C19_hash_values_unevaluated_refuted :
-  loadable (Hash [(Fix 1, L [Fix 1; Fix 2])]) = false /\ reload (Hash [(Fix 1, L [Fix 1; Fix 2])]) = Err ENotFunction
-  /\ reload (Hash [(Fix 1, Sym "abc")]) = Err (EUnbound "abc").
-Proof. exact hash_values_unevaluated_refuted. Qed.
-Print Assumptions C19_hash_values_unevaluated_refuted.
+Theorem C19_rank_zero_refuted : reload (Arr [] [Fix 7] T true) = Err EType /\ loadable (Arr [] [Fix 7] T true) = false.
+Proof. exact rank_zero_refuted. Qed.
+Print Assumptions C19_rank_zero_refuted.
 Theorem C19_snapshot_symbol_refuted :
   let s := run_or_empty [L [Sym "defvar"; Sym "*sy*"; quote (Sym "abc")]] in
   sess_ok s = false /\ meets_spec s = false
@@ -136,19 +129,3 @@ Theorem C19_unbound_variable_refuted :
   /\ snapshot s = [L [Sym "defvar"; Sym (qual "*u*")]; L [Sym "setq"; Sym (qual "*u*"); Sym "<unbound>"; Sym "0x00"]].
 Proof. exact unbound_variable_refuted. Qed.
 Print Assumptions C19_unbound_variable_refuted.
-Theorem C19_snapshot_hash_value_refuted :
-  let s := run_or_empty [L [Sym "defvar"; Sym "*h*";
-              L [Sym "let"; L [L [Sym "table"; L [Sym "make-hash-table"]]];
-                 L [Sym "setf"; L [Sym "gethash"; Fix 1; Sym "table"]; quote (L [Fix 1; Fix 2])]; Sym "table"]]] in
-  sess_ok s = false /\ meets_spec s = false /\ snd (load_forms empty_session (snapshot s)) = [true; false].
-Proof. exact snapshot_hash_value_refuted. Qed.
-Print Assumptions C19_snapshot_hash_value_refuted.
-(* make-load-form of an INSTANCE (instance.go InstanceLoadForm) puts the values of the instance variables into the form
-   as they are: with a list in an instance variable the load form cannot be evaluated, while the form the snapshot
-   writes for the same instance can *)
-Theorem C19_instance_load_form_raw_refuted :
-  bind (load_form (Inst "blk" [("sa", L [Fix 1; Fix 2; Fix 3]); ("sb", Fix 2)])) (eval ex_env) = Err ENotFunction
-  /\ bind (pp_value (Inst "blk" [("sa", L [Fix 1; Fix 2; Fix 3]); ("sb", Fix 2)])) (eval ex_env)
-     = Ok (Inst "blk" [("sa", L [Fix 1; Fix 2; Fix 3]); ("sb", Fix 2)]).
-Proof. exact instance_load_form_raw_refuted. Qed.
-Print Assumptions C19_instance_load_form_raw_refuted.
